@@ -210,17 +210,17 @@ class BehavioralRTLIRTypeCheckVisitorL2( BehavioralRTLIRTypeCheckVisitorL1 ):
     # s.enforcer.enter(s.blk, context_type, node.end)
     # s.enforcer.enter(s.blk, context_type, node.step)
 
-    tmpvars_were_explicit = dict( s.tmpvars_is_explicit )
-
-    for stmt in node.body:
-      s.visit( stmt )
-
     # A temporary that is given an explicitly sized value inside the body
     # is explicitly sized at the top of the body from the second iteration
-    # on: check the body again with what is known at its end.
-    if any( s.tmpvars_is_explicit[k] != v for k, v in tmpvars_were_explicit.items() ):
+    # on: check the body again with what is known at its end, until nothing
+    # changes any more (a temporary created inside the body, a width that
+    # travels through a chain of temporaries: u = t; t = s.in1).
+    for _ in range( 2 + len( node.body ) * 4 ):
+      tmpvars_were_explicit = dict( s.tmpvars_is_explicit )
       for stmt in node.body:
         s.visit( stmt )
+      if s.tmpvars_is_explicit == tmpvars_were_explicit:
+        break
 
     del s.loopvar_nbits[node.var.name]
 
